@@ -5,5 +5,5 @@ D=$(mktemp -d /var/tmp/vp-findings.XXXXXX)
 trap 'rm -rf "$D"' EXIT
 cp -r /verif/findings/. "$D"/
 sed -i "s#REPO_PATH#$REPO#" "$D"/Cargo.toml
-cp "$REPO"/Cargo.lock "$D"/Cargo.lock 2>/dev/null
+cp "$REPO"/Cargo.lock "$D"/Cargo.lock 2>/dev/null || cp /verif/kani/Cargo.lock "$D"/Cargo.lock
 cd "$D" && RUST_BACKTRACE=0 CARGO_NET_OFFLINE=true CARGO_TARGET_DIR="$D/target" cargo test --offline --no-fail-fast "$@" 2>&1 | grep -v "^\s*Compiling\|^\s*Finished\|^\s*Running\|^$\|Downloaded\|Locking\|Adding"
